@@ -423,7 +423,9 @@ pub async fn run_case(case: Vec<String>) -> String {
                     }
                 };
                 req_counter += 1;
-                let text = indialog("ACK", cseq, &format!("z9hG4bKack{}", req_counter), &local_tag, "");
+                // optional third field: further header lines of the ACK (hex), e.g. a Contact - legal in an ACK, and not a target refresh
+                let ack_extra = a.get(2).map(|h| String::from_utf8(unhex(h)).unwrap()).unwrap_or_default();
+                let text = indialog("ACK", cseq, &format!("z9hG4bKack{}", req_counter), &local_tag, &ack_extra);
                 inject(&endpoint, &text, source, &tp);
             }
             "prack" => {
